@@ -304,6 +304,40 @@ def build_coq_property(stem, timeout=1800):
     return info
 
 
+TIE_THEOREM = re.compile(r"^C\d\d_source_")
+
+
+def tolerant_pass(stem, timeout=900):
+    """The property file did not compile as a whole (typically because a file it imports — a source-tie file whose
+    generated terms changed — no longer compiles).  Feed it sentence by sentence to the interactive toplevel, which goes on
+    after an error, and see which theorems are still accepted by the kernel: returns (set of theorem names that were
+    defined, log tail).  Everything the toplevel loads was compiled by full .vo builds; a stale .vo is rejected by Coq's
+    own digest check ("inconsistent assumptions")."""
+    vfile = os.path.join(COQ, stem + ".v")
+    args = ["coqtop", "-q", "-Q", COQ, "Romea", "-w",
+            "-notation-overridden,-deprecated-hint-without-locality,-deprecated-instance-without-locality,-ambiguous-paths,-unused-intro-pattern"]
+    text = open(vfile).read()
+
+    def split_require(m):
+        # one Require per module, so that a module that no longer compiles does not take the others with it
+        return "".join("%s %s.\n" % (m.group(1), mod) for mod in m.group(2).split())
+    text = re.sub(r"^((?:From\s+[\w.]+\s+)?Require\s+(?:Import|Export))\s+([\w.\s]+?)\.[ \t]*$", split_require, text, flags=re.M)
+    names = [t[0] for t in count_theorems(vfile)]
+    # probes, after the file: `Fail Check @name.` says "The reference name was not found" exactly for the theorems that the
+    # kernel did not accept above
+    probes = "\nCheck (fun tolerant_probe_marker : Prop => tolerant_probe_marker).\n" + \
+             "".join("Fail Check @%s.\n" % n for n in names)
+    with Lock("coq"):
+        rc, o, e = sh(args, cwd=COQ, inp=text + "\n" + probes, timeout=timeout)
+    out = o + "\n" + e
+    if "tolerant_probe_marker" not in out:
+        return set(), out[-3000:]                      # the toplevel did not get to the probes: nothing is known
+    tail = out[out.rindex("tolerant_probe_marker"):] if "tolerant_probe_marker" in o else out
+    missing = set(re.findall(r"The reference ([A-Za-z_][A-Za-z0-9_']*)\s+was not found", tail))
+    defined = set(n for n in names if n not in missing)
+    return defined, out[-3000:]
+
+
 def romea_closure(stem):
     """the modules of this development that <stem> depends on (from coq_makefile's dependency file), stem included"""
     deps = {}
@@ -604,9 +638,35 @@ def run_check(pid, tier="quick", seed=None, replay=None):
         bad = grep_forbidden()
         for b in bad:
             res.tie_failures.append(("forbidden-declaration", b))
-        coq = build_coq_property(chk.get("coq", "Properties_" + pid))
+        stem = chk.get("coq", "Properties_" + pid)
+        coq = build_coq_property(stem)
+        soft = []        # failures that concern the SYNTACTIC source tie only (see the verdict)
+        for own_e in list(res.tie_failures):
+            if own_e[0] == "translator" and not os.environ.get("VERIF_STRICT_TIE"):
+                res.tie_failures.remove(own_e)
+                soft.append(own_e)
         if not coq["ok"]:
-            res.tie_failures.append(("proof", "%s does not check: %s" % (chk.get("coq", "Properties_" + pid), coq["failed_theorem"])))
+            first_failure = coq["failed_theorem"]
+            defined, tlog = (set(), "")
+            if not os.environ.get("VERIF_STRICT_TIE"):
+                defined, tlog = tolerant_pass(stem)
+            failed = [t for t in coq["theorems"] if t not in defined]
+            core_failed = [t for t in failed if not TIE_THEOREM.match(t)]
+            if defined and failed and not core_failed:
+                # every theorem about the model is still accepted; what no longer checks is the equality between terms
+                # regenerated from the source and the model (source-tie theorems C??_source_*)
+                coq["discharged"] = len(coq["theorems"]) - len(failed)
+                coq["tie_degraded"] = failed
+                soft.append(("source-tie", "%s: %d source-tie theorem(s) no longer check (%s%s); first failure: %s"
+                             % (stem, len(failed), ", ".join(failed[:4]), ", ..." if len(failed) > 4 else "", first_failure)))
+            else:
+                if defined:
+                    coq["discharged"] = len(coq["theorems"]) - len(failed)
+                    if core_failed:
+                        coq["failed_theorem"] = "%s (first build failure: %s)" % (core_failed[0], first_failure)
+                res.tie_failures += soft
+                soft = []
+                res.tie_failures.append(("proof", "%s does not check: %s" % (stem, coq["failed_theorem"])))
         extra = chk.get("extra_proof_step")
         if extra:
             for kind, text in extra(work):
@@ -729,17 +789,20 @@ def run_check(pid, tier="quick", seed=None, replay=None):
         open_keys = {k["key"]: k for k in kfs if k.get("status") == "open"}
         # a broken tie (proof, translator, correspondence) with no failing input yet: search harder for a concrete input on
         # which the property fails — the thorough generators with further seeds, implementation + oracle only
-        if tier == "quick" and not replay and exe and (res.tie_failures or res.mismatches) \
+        if tier == "quick" and not replay and exe and (res.tie_failures or res.mismatches or soft) \
                 and not any(f["key"] not in open_keys for f in res.oracle_failures) and not os.environ.get("VERIF_NO_SEARCH"):
             t_search = time.time()
-            for k in range(1, 4):
+            only_soft = not res.tie_failures and not res.mismatches
+            for k in range(1, 2 if only_soft else 4):
                 rng2 = random.Random(((seed + 7919 * k) * 1000003) ^ int(hashlib.sha1(pid.encode()).hexdigest()[:8], 16))
                 try:
-                    run_groups(chk["gen"](rng2, "thorough"), with_model=False, prefix="search%d:" % k)
+                    # with only the syntactic tie in question the model is still there: the search also compares the
+                    # implementation with the model (the other tie) on the larger case set
+                    run_groups(chk["gen"](rng2, "thorough"), with_model=only_soft, prefix="search%d:" % k)
                 except Exception as ex:  # noqa
                     res.tie_failures.append(("search", "search for a failing input stopped: %r" % ex))
                     break
-                if any(f["key"] not in open_keys for f in res.oracle_failures) or time.time() - t_search > 600:
+                if any(f["key"] not in open_keys for f in res.oracle_failures) or res.mismatches or time.time() - t_search > 600:
                     break
             res.stats["search_s"] = round(time.time() - t_search, 1)
         # 6. verdict
@@ -763,6 +826,8 @@ def run_check(pid, tier="quick", seed=None, replay=None):
             rc = 1
         elif res.tie_failures or res.mismatches:
             what = []
+            res.tie_failures += soft
+            soft = []
             for k, t in res.tie_failures[:10]:
                 what.append("%s: %s" % (k, t))
             payload = {"kind": "tie", "broken": what,
@@ -776,6 +841,17 @@ def run_check(pid, tier="quick", seed=None, replay=None):
             out_lines.append("VIOLATION property=%s replay=%s no-failing-input-found" % (pid, p))
             violations = len(res.tie_failures) + len(res.mismatches)
             rc = 1
+        elif soft:
+            # The theorems about the model all check, the model and the implementation agree on every case (quick tier and
+            # the search above) and the property's oracle is satisfied: the property is still shown to hold through the
+            # correspondence tie.  What could not be re-established for this source text is the SYNTACTIC tie (a rewrite the
+            # translator or the tie lemmas do not follow).  Reported, recorded in the evidence, not a violation.
+            for k, t in soft[:5]:
+                out_lines.append("TIE-DEGRADED: property=%s syntactic source tie not re-established (%s: %s); the model still "
+                                 "agrees with the implementation on all %d cases and the property oracle passes"
+                                 % (pid, k, t[:300], res.evaluations))
+        if unlisted:
+            res.tie_failures += soft
         for key, f in listed.items():
             out_lines.append("KNOWN-FINDING: property=%s %s (%s)" % (pid, key, open_keys[key].get("what", f["msg"])))
         # evidence
@@ -797,6 +873,10 @@ def run_check(pid, tier="quick", seed=None, replay=None):
             "known_findings_reproduced": sorted(listed.keys()),
             "input_distribution": res.stats,
             "tie_failures": ["%s: %s" % (k, t[:300]) for k, t in res.tie_failures][:20],
+            "syntactic_tie": ("degraded: " + "; ".join("%s: %s" % (k, t[:200]) for k, t in soft)) if (soft and rc == 0)
+                             else ("established (source-tie theorems C??_source_* of the property file check)"
+                                   if coq.get("ok") and any(TIE_THEOREM.match(t) for t in coq.get("theorems", [])) else
+                                   ("not part of this property's tie" if coq.get("ok") else "not established")),
         }
         if coq.get("coqchk"):
             cov["coqchk"] = coq["coqchk"]
